@@ -12,6 +12,9 @@ MUTS = ["second_keeps_pop", "pop_skips_second"]
 
 
 def diag_of(rec, ex):
+    if rec.get("e") == "vdeep":
+        return {"op": "vdeep", "n": rec.get("n"), "calls": rec.get("calls"), "ret": rec.get("ret"), "calls_err": rec.get("calls_err"),
+                "ret_err": rec.get("ret_err")}
     calls = rec.get("calls", [])
     return {"op": "visit", "nodes": len(rec.get("nodes", [])), "ncalls": rec.get("ncalls"), "ret": rec.get("ret"),
             "codes": sorted(set(c["c"] for c in calls))[:8]}
@@ -51,6 +54,9 @@ def run(ck):
     vlib.conformance(ck, "G:edge-cover-replay", "TraceVisit", "trace.cfg", tp, deaths, diag_of, min_events=len(scripts))
     n = 60000 if thorough else 3000
     tp = os.path.join(ck.dir, "v.ndjson")
+    tpd = os.path.join(ck.dir, "d.ndjson")
+    deaths = vlib.run_executions(exe, lambda st: ["c17", "deep"], 1, tpd, timeout=600)
+    vlib.conformance(ck, "V:chains-of-tens-of-thousands-of-levels", "TraceVisit", "trace.cfg", tpd, deaths, diag_of, min_events=8)
     deaths = vlib.run_executions(exe, lambda st: ["c17", "drive", st, n, 300], n, tp)
     vlib.conformance(ck, "V:random-trees-and-schedules", "TraceVisit", "trace.cfg", tp, deaths, diag_of, min_events=n)
 
